@@ -14,6 +14,8 @@ import numpy as np
 from .. import cards, rel, yrun
 from ..engine import digest
 
+HISTORY_SWEEP = True
+HISTORY_SWEEP_PER_PROCESS = 5  # each state already consists of several real runs
 ID = "C13"
 SF_KINDS = ["F2", "FL", "F3", "g1", "gL", "g4"]
 PV = {"F3", "gL", "g4"}
@@ -76,6 +78,9 @@ def states(tier, seed):
         out.append({"rel": "S3", "kind": k, "heavyness": h, "scheme": sc, "pto": pto, "Q2": q2, "ckm": ckm, "pair": pair})
     for k in ("F2", "FL", "F3"):
         out.append({"rel": "S3", "kind": k, "heavyness": "light", "scheme": "ZM-VFNS", "pto": 3, "Q2": 30.0, "ckm": "dense", "pair": "nu"})
+        # O(a_s^3) single-flavour (heavylight) kernels: the only order with a CC valence coefficient; both beam pairs
+        for h, pair in itertools.product(["charm", "bottom", "total"], ["nu", "e"]):
+            out.append({"rel": "S3", "kind": k, "heavyness": h, "scheme": "ZM-VFNS", "pto": 3, "Q2": 30.0, "ckm": "dense" if pair == "e" else "pdg", "pair": pair})
     # S4
     for k, h, pto, q2, proc, pol in itertools.product(SF_KINDS, ["light", "total"], ptos if quick else [0, 1, 2, 3], [2.0, 10.0, 30.0, 1e5], ["EM", "NC"], [0.0, 0.7]):
         if quick and (pol == 0.7) != (proc == "NC"):
@@ -83,6 +88,11 @@ def states(tier, seed):
         if pto == 3 and (q2 not in (10.0, 1e5) or k in ("g1",)):
             continue
         out.append({"rel": "S4", "kind": k, "heavyness": h, "scheme": "ZM-VFNS", "pto": pto, "Q2": q2, "process": proc, "pol": pol})
+    if quick:
+        for k, q2, proc in itertools.product(["F2", "FL", "F3"], [10.0, 1e5], ["EM", "NC"]):
+            if proc == "EM" and k == "F3":
+                continue
+            out.append({"rel": "S4", "kind": k, "heavyness": "light", "scheme": "ZM-VFNS", "pto": 3, "Q2": q2, "process": proc, "pol": 0.7 if proc == "NC" else 0.0})
     return out
 
 
